@@ -218,3 +218,66 @@ def origins(repo: Repo, f: Func, name: str, depth: int = 2) -> List[Tuple[Func, 
                 else:
                     out.append((g, arg))
     return out
+
+
+def not_none_fact(t: ast.AST, pol: bool, about: Optional[str] = None) -> bool:
+    """Is (test, polarity) the fact `<about> is not None`, in either spelling (`x is not None` true / `x is None` false / truthiness of x)?"""
+    while isinstance(t, ast.UnaryOp) and isinstance(t.op, ast.Not):
+        t, pol = t.operand, not pol
+    if isinstance(t, ast.Compare) and len(t.ops) == 1 and isinstance(t.comparators[0], ast.Constant) and t.comparators[0].value is None:
+        if about is not None and norm(t.left) != about:
+            return False
+        return (isinstance(t.ops[0], (ast.IsNot, ast.NotEq)) and pol) or (isinstance(t.ops[0], (ast.Is, ast.Eq)) and not pol)
+    return False
+
+
+def callers_by_name(repo: Repo, g: Func) -> List[Func]:
+    """Functions that contain a call spelled with g's name (a name-level over-approximation of g's callers)."""
+    out = []
+    for f in repo.funcs.values():
+        if f is g:
+            continue
+        if any(call_name(c) == g.name for c in calls_in(f)):
+            out.append(f)
+    return out
+
+
+def private_helper_of(repo: Repo, g: Func, owner_qn: str) -> bool:
+    """g is a private (underscore) function of the owner's module whose only callers are the owner itself (or other such helpers of it)."""
+    owner = repo.funcs.get(owner_qn)
+    if owner is None or g.mod is not owner.mod or not g.name.startswith('_') or g.name.startswith('__'):
+        return False
+    seen = {g.qn}
+    todo = [g]
+    while todo:
+        h = todo.pop()
+        cs = callers_by_name(repo, h)
+        if not cs:
+            return False
+        for c in cs:
+            if c is owner or c.qn in seen:
+                continue
+            if c.mod is owner.mod and c.name.startswith('_') and not c.name.startswith('__'):
+                seen.add(c.qn)
+                todo.append(c)
+            else:
+                return False
+    return True
+
+
+def parser_valued(repo: Repo, f: Func, name: str, depth: int = 0) -> bool:
+    """Does the local `name` of f hold a docstring parser (get_parser_by_name(...) / processtypes(...), directly or through a helper that returns one)?"""
+    for v in values_of(f, name):
+        if not isinstance(v, ast.Call):
+            continue
+        if call_name(v) in ('get_parser_by_name', 'processtypes'):
+            return True
+        if depth < 2:
+            for g in repo.funcs.values():
+                if g.mod is f.mod and g.name == call_name(v) and g.cls is None:
+                    for r in g.walk():
+                        if isinstance(r, ast.Return) and isinstance(r.value, ast.Name) and parser_valued(repo, g, r.value.id, depth + 1):
+                            return True
+                        if isinstance(r, ast.Return) and isinstance(r.value, ast.Call) and call_name(r.value) in ('get_parser_by_name', 'processtypes'):
+                            return True
+    return False
